@@ -212,7 +212,11 @@ class Genuine:
         v = self.v2 = certs.V2Cert(spec)
         pem = b""
         for nm in v.chain:
-            der = self._alt("cert:" + nm, v.certs[nm])
+            der = v.certs[nm]
+            a = self.alter
+            if a and a["target"] == "cert:" + nm:
+                self.events.append(("altered", a["target"]))
+                der = certs.flip_in_signed_or_signature(der, a["pos"], a["bit"])
             pem += (b"-----BEGIN CERTIFICATE-----\n" +
                     certs.der_to_b64(der).encode() + b"\n-----END CERTIFICATE-----\n")
         if s.get("third_cert", True):
